@@ -1090,7 +1090,7 @@ func (x *Exec) forgetLoopCalls(st *State, fr *Frame, ld *loopDesc) {
 		delete(st.callCounts, "n:"+n)
 	}
 	for k := range st.meta {
-		for _, pre := range []string{"ret:", "args:"} {
+		for _, pre := range []string{"ret:", "args:", "prevargs:"} {
 			if strings.HasPrefix(k, pre) && match(k[len(pre):]) {
 				delete(st.meta, k)
 			}
